@@ -24,6 +24,8 @@ SESSIONS = [
     {'name': 'C', 'asn4': True, 'aigp': False, 'families': [[1, 1], [2, 1], [1, 128]], 'addpath': [[2, 1]], 'peer_as': 70000},
     # (appended: stored cases name sessions by position) FlowSpec for both address families: component types are shared, meanings are not
     {'name': 'D', 'asn4': True, 'aigp': True, 'families': [[1, 1], [1, 133], [2, 133]], 'addpath': [], 'peer_as': 65001},
+    # session A's neighbor established once more, its peer now offering IPv4 unicast only: one neighbor object, two negotiation results
+    {'name': 'E', 'asn4': True, 'aigp': True, 'families': [[1, 1]], 'addpath': [], 'peer_as': 65001, 'same_neighbor_as': 0},
 ]
 PARAMETERS = ('asn4', 'aigp', 'families', 'addpath')
 FAMILY_TEXT = {(1, 1): 'ipv4 unicast', (1, 2): 'ipv4 multicast', (1, 4): 'ipv4 nlri-mpls', (1, 128): 'ipv4 mpls-vpn', (2, 1): 'ipv6 unicast', (2, 4): 'ipv6 nlri-mpls', (2, 128): 'ipv6 mpls-vpn', (1, 133): 'ipv4 flow', (2, 133): 'ipv6 flow'}
@@ -74,7 +76,10 @@ def setup() -> dict:
             addpath_families=ap or None,
             extra='  adj-rib-in true;',
         )
-        _conf, neighbor = exa.neighbor_from_text(text)
+        if 'same_neighbor_as' in s:
+            neighbor = sessions[s['same_neighbor_as']]['neighbor']
+        else:
+            _conf, neighbor = exa.neighbor_from_text(text)
         desc = {k: s[k] for k in ('asn4', 'families', 'addpath', 'peer_as')}
         neg = exa.negotiate(neighbor, ws.peer_open_for(desc), exa.Direction.IN)
         assert bool(neg.asn4) == s['asn4'] and bool(neg.aigp) == s['aigp'], (s, neg.asn4, neg.aigp)
